@@ -94,6 +94,15 @@ CHECKS = {
     design="3/C19",
     technique="bounded symbolic execution of the real Python on z3 proxies (mask kept symbolic as if-then-else, NaN tracked, grid length forked); J0/exp/log/sin/asin uninterpreted with instantiated true facts; nlsat on a UF-abstracted weakening first, then full SMT, with counterexample-guided refinement of sin/asin; sat models replayed on the real float code with scipy j0",
     note="Doubles are reals. The code's log spacing 1.0003 is replaced by 1.5-4 to bound the grid; the code is uniform in grid length. The quadrature-accuracy clauses (Gaussian pair, 10% single point) are outside the solver claim and only reported as concrete runs. Units other than A/radians need sasdata (absent). The reading 'mask also on the -G(0) term' is not demanded."),
+ "C05": dict(
+    text="For each of the 21 oriented models the real Python driver runs on z3 proxies and the LLVM IR of the model's real generated <model>_Iqxy kernel "
+         "(the template's orientation/jitter code) is executed symbolically with view angles, jitter meshes, weights, a size distribution and (qx,qy) symbolic. "
+         "The arguments reaching the uninterpreted Iqac/Iqabc are proved equal to R^-1(qx,qy,0) for the documented R = Rz(phi)Ry(theta)Rz(psi)Rx(dphi)Ry(dtheta)Rz(dpsi) "
+         "(qc and qab^2 = qa^2+qb^2 for symmetric shapes) by solver lemmas under sin^2+cos^2=1, and the accumulators equal sum prod(w)|cos dtheta| I(...). The real "
+         "get_mesh runs on proxies for the 1-D clause (orientation parameters inactive) and the jitter-centred-on-zero clause. Right level: a sign/order error in any "
+         "rotation entry or a lost |cos| is a polynomial disequality the solver finds for all angles at once; the invariance consequences follow on paper.",
+    design="3/C05", engine="symx+llsym",
+    technique="symbolic execution of clang LLVM IR of the generated 2-D kernels under the real Python driver on z3 proxies; layered congruence lemmas (QF_NRA with circle axioms, UF applications abstracted) + accumulator obligations; counterexamples replayed on the real DLL against the model's own Iqac/Iqabc evaluated at independently rotated q"),
 }
 
 NOT_YET = "check not built yet in this round (planned in DESIGN.md section 3); not claimed"
